@@ -26,6 +26,17 @@ CLAIMED["C19"] = ("Partial, compositional treatment of concurrency safety: (1) l
 CLAIMED["C18"] = ("Fault-position bounded model checking: the real token-endpoint flows (quick: authorization-code redeem, refresh, refresh-reuse handling; thorough adds password, client_credentials, revocation, PKCE redeem, device poll, PAR push/use, authorize-endpoint issuance and pairs of faults) run symbolically against a wrapper over the real MemoryStore that fails the storage call whose running index equals a SYMBOLIC fault index (0..24, so the solver covers every call site) with each error kind, and that implements storage.Transactional with real snapshot/rollback; then a clean retry and a replay. Asserted: fault reached => refused and no token in any response; serialization failure => the retry-hint error; begin/commit/rollback trace well-formed; fault inside the transaction => store equals the pre-request snapshot, retry succeeds, later replay refused; otherwise fail-closed.", "6/C18",
          "symbolic execution of Go SSA (own engine) + SMT (cvc5) with symbolic fault index over a transactional fault-injecting store wrapper; native replay")
 
+T_STATE = "symbolic execution of Go SSA (own engine) + SMT (cvc5, z3 cross-check), scripted-prefix BMC over the real MemoryStore with an independent ledger, native replay"
+T_PURE = "symbolic execution of Go SSA (own engine) + SMT (cvc5, z3 cross-check), differential against an independent specification, native replay"
+CLAIMED["C01"] = ("Scripted-prefix bounded model checking through the public API over the real MemoryStore: authorize (code, OIDC hybrid 'code token', code with JWT access tokens) for c1 and an independent grant for c2, redeem, 0..1 (quick) / 0..2 (thorough) refreshes, one (thorough: two) free operation(s) (redeem any code by a caller with SYMBOLIC id and secret, refresh, revoke, symbolic clock advance up to 45 days), then the same code again, then an introspection sweep against a ledger: at most one success per code, authenticated replay => invalid_grant/400, every token-endpoint token of the grant dead afterwards, other grants untouched.", "6/C01", T_STATE)
+CLAIMED["C06"] = ("(a) HMACStrategy.Validate/Signature against an independent specification for attacker-chosen symbolic token strings (1-4 / 1-5 segments), for tokens built from a symbolic random part under each key arrangement (global + 0-2 rotated secrets of length 0/16/31/32/40, custom hashers), byte-level tampering of really minted tokens, Generate's shape/entropy/secret-length rules, device/user codes and PAR request_uri minting; base64 and MAC are uninterpreted functions with stated collision-resistance/unforgeability assumptions; (b) end-to-end: 12 kinds of forgeries built from minted parts at introspection, refresh, redemption and device poll under current / rotated / unknown secrets; (c) JWT access tokens: DefaultSigner/DefaultJWTStrategy/stateless introspection over a go-jose model (alg x key x tampering), natively validated against real go-jose.", "6/C06", T_PURE)
+CLAIMED["C08"] = ("Scripted-prefix BMC of the revocation endpoint (NewRevocationRequest + WriteRevocationResponse) over the real MemoryStore: grants of code / hybrid / password origin, 0..1 (2) rotations, pre-states fresh / aged / already revoked, then a revocation with SYMBOLIC presenter id, secret and token_type_hint of any issued token of any generation, a never-issued signature, symbolic garbage or a tampered token; before/after introspection of every token: owner => token and sibling dead, other grants untouched; foreign client => unauthorized_client and nothing changes; unauthenticated => nothing changes; unknown/already-invalid => success without change.", "6/C08", T_STATE)
+CLAIMED["C09"] = ("IntrospectToken and the introspection endpoint against a ledger: histories fresh / rotated / revoked / code-replayed / aged (thorough: reuse, multi-step), SYMBOLIC hint, 0..1 (0..2) symbolic required scopes under exact / hierarchic (/ wildcard) strategies, refresh validation on/off, tokens = every issued token + swapped parts + other prefix + symbolic garbage, HMAC and JWT access strategies: active <=> issued, live, unexpired, scopes covered; reported client, subject, scopes, audience, use, expiry equal the ledger; endpoint answers only valid client credentials or a different live access token; inactive body is exactly {active:false}; reserved claims not overridable.", "6/C09", T_STATE)
+CLAIMED["C10"] = ("Client authentication: DefaultClientAuthenticationStrategy with SYMBOLIC body client_id/client_secret, symbolic Basic credentials and 8 header shapes, registered plaintexts symbolic (bcrypt modelled as an injective hash, natively real bcrypt), OIDC client with symbolic auth method string, rotated secrets; returned client => registered and (public or presented current/rotated plaintext through a permitted transport); otherwise invalid_client / invalid_request. Gating at token, revocation, PAR and device endpoints with spy handlers (handler runs => authenticated or CanSkipClientAuth), no store change on refusal, CanSkipClientAuth constants, client_credentials never for public clients.", "6/C10", T_PURE)
+CLAIMED["C14"] = ("ID Token issuance over a go-jose model validated natively against real go-jose: DefaultStrategy.GenerateIDToken with symbolic subject, nonce, auth_time / requested_at offsets, max_age, prompt, id_token_hint variants, preset expiry, key algorithms; and the composed provider for code, implicit, hybrid (all response types), refresh and device flows: issued => openid granted, subject non-empty, aud contains the client, iss/sub from session/config, nonce echoed, exp in the future and within lifespan unless preset, at_hash / c_hash = left half of the hash of the artefact of the same response; refresh drops c_hash; unsatisfied max_age/prompt/hint => failure.", "6/C14", T_STATE)
+CLAIMED["C15"] = ("private_key_jwt client assertions and RFC 7523 JWT-bearer grants over a go-jose model (natively real keys and JWS): every claim absent / wrong type / wrong value / boundary (symbolic iss, sub, aud, jti strings and exp/iat/nbf offsets), alg x kid x signing key x registered alg x JWKS arrangement, replay at a symbolic offset around exp; accepted => every conjunct of the statement; the mark-if-absent lemma on MemoryStore.SetClientAssertionJWT / ClientAssertionJWTValid from a symbolic blacklist of <= 3 (4) entries. The concurrency clause is covered compositionally with C19's lock lemma (interleavings are not enumerated).", "6/C15", T_PURE)
+CLAIMED["C20"] = ("Error responses and storage hygiene: every exported RFC error x symbolic hint/debug/description strings x legacy x expose through 12 error writers/modes against structural models of json/url encoding (status = code, error = RFC name, description free of quotes for ALL strings, Location = base + encoded values), non-interference of the debug field when exposure is off (two runs), cache headers on every writer path, reflection of symbolic values only through the encoder / template data; a spy store over the real MemoryStore in 10 (12) flows: no storage key equals a complete credential, no stored form carries client_secret, password, code_verifier, client_assertion or a complete credential (also as two-run non-interference with symbolic secrets).", "6/C20", T_PURE)
+
 NOT_YET = {}
 
 def main():
@@ -55,7 +66,7 @@ def main():
             "guard": "none (harnesses are overlay-only files under /verif/harness; /repo is not instrumented)",
             "enable": "checks load /repo's working tree with go/packages Overlay = /verif/harness; native replays use go test -c -overlay",
             "baseline_off_cmd": BASE_CMD,
-            "source_commits": ["aa0ba12", "d7b609b"],
+            "source_commits": subprocess.run(["git","-C","/repo","log","--format=%h","--grep=^fix:"],capture_output=True,text=True).stdout.split()[::-1],
             "add_only": True,
         },
         "engines": [{"name": "symgo", "path": "/verif/symgo", "serves_properties": sorted(CLAIMED),
